@@ -57,6 +57,7 @@ func init() {
 			ruleSendOnce(c, "C01.", []*ssa.Function{ro.Handle4, ro.Handle6})
 			ruleStubNonNil(c, "C01.STUBNONNIL", []*ssa.Function{ro.Handle4, ro.Handle6})
 			ruleLockOrder(c, "C01.")
+			ruleAllocIndexBounded(c, "C01.ALLOC.INDEX-IN-POOL") // bitset.Set(i) allocates i+1 bits: i must be bounded by the pool
 			c.R.Floor("C01.PANIC", 3)
 			c.R.Floor("C01.ASSERT", 3)
 			c.R.Floor("C01.BOUNDS", 9)
